@@ -6,5 +6,8 @@ func init() {
 	props["C05"] = common.CommentsProperty(common.CmImpl{Load: func(prog *common.Program) (*common.USnap, error) {
 		snap, _, _, err := loadHistoryV1(prog, []string{prog.Pkgs[0].Path}, nil)
 		return snap, err
+	}, LoadLater: func(prog *common.Program, first, then string) (*common.USnap, error) {
+		snap, _, _, err := loadHistoryV1(prog, []string{first}, [][]string{{then}})
+		return snap, err
 	}})
 }
